@@ -18,10 +18,15 @@ MEMBERS = T.mk(('attr', T.SELF, 'jobs'))
 # ----------------------------------------------------------------- matchers
 def strip_coll(t):
     """list(x) / set(x) / BestSet(x) / sorted(x) -> x"""
-    while t[0] == 'call' and t[1] in ('list', 'set', 'tuple', 'BestSet', 'frozenset', 'sorted') \
-            and len(t[2]) == 1 and not t[3]:
-        t = t[2][0]
-    return t
+    while True:
+        if t[0] == 'call' and t[1] in ('list', 'set', 'tuple', 'BestSet', 'frozenset', 'sorted') \
+                and len(t[2]) == 1 and not t[3]:
+            t = t[2][0]
+        elif t[0] == 'union' and len(t[1]) == 1 and tuple(t[1])[0][0] == 'comp':
+            # an empty collection filled by one collecting loop (summarised as a comprehension)
+            t = tuple(t[1])[0]
+        else:
+            return t
 
 
 def comp_over(t, base):
@@ -273,7 +278,7 @@ def success_accounting(ctx, rep, rule, rule_forever=None):
     for e in rets:
         site = "%s `return True`" % e.where
         if e.data['phase'] == 'NoTasks':
-            ok = e.st.facts.get(MEMBERS) is False
+            ok = e.st.facts.get(MEMBERS) is False or e.data.get('no_members')
             rep.check(ok, rule, site + " (empty scheduler)", fn,
                       "`return True` before any start, not guarded by `not self.jobs`",
                       "the run reports success without having run its jobs", trace(e.st))
@@ -499,7 +504,7 @@ def exit_discipline(ctx, rep, rule_tidy, rule_shut=None, rule_nostart=None, caus
             cname = c[0] if c else 'unknown'
             if causes and cname not in causes:
                 continue
-            rep.check(e.data['phase'] == 'Tidied', rule_shut, "%s shutdown after tidy (%s)" % (e.where, cname), fn,
+            rep.check(e.data['phase'] in ('Tidied', 'NoTasks'), rule_shut, "%s shutdown after tidy (%s)" % (e.where, cname), fn,
                       "shutdown broadcast awaited in state %s" % e.data['phase'],
                       "co_shutdown is sent to the jobs while some of them are still running", trace(e.st))
     if rule_nostart:
@@ -596,6 +601,16 @@ def deadline(ctx, rep, rule_fixed, rule_armed):
         v = e.data['val']
         site = "%s deadline = clock() + own timeout" % e.where
         if v == T.NONE:
+            # "no deadline" is for timeout=None only: 0 is a legal timeout (expires at once)
+            TO = T.mk(('attr', T.SELF, 'timeout'))
+            ident = e.st.facts.get(T.mk(('cmp', 'is', TO, T.NONE))) is True or \
+                e.st.facts.get(T.mk(('cmp', 'is not', TO, T.NONE))) is False
+            falsy = e.st.facts.get(TO) is False
+            rep.check(ident and not falsy, rule_fixed, "%s no deadline only when timeout is None" % e.where, fn,
+                      "`%s` stores no deadline %s" % (src(stmt_of(e.node)),
+                                                      "when the timeout is merely falsy (0 included)" if falsy
+                                                      else "without testing `timeout is None`"),
+                      "a scheduler with timeout=0 never expires: run() lasts as long as its jobs", trace(e.st))
             continue
         good = v[0] == 'binop' and v[1] == 'Add'
         if good:
@@ -644,8 +659,10 @@ def forever_confined(ctx, rep, rule):
                 if T.mentions(cd, isf):
                     bad.append("start filtered on `forever`: %s" % T.show(cd, 3))
         for k, v in e.st.facts.items():
-            if k[0] == 'cmp' and (k[2][0] == 'acc' or k[3][0] == 'acc'):
-                continue
+            if k[0] == 'cmp' and (k[2][0] in ('acc', 'pos') or k[3][0] in ('acc', 'pos')
+                                  or (k[2][0] == 'const' and isinstance(k[2][1], int))
+                                  or (k[3][0] == 'const' and isinstance(k[3][1], int))):
+                continue            # the completion test itself
             if T.mentions(k, isf):
                 bad.append("start conditioned on `forever`: %s is %s" % (T.show(k, 3), v))
         rep.check(not bad, rule, "%s start independent of `forever`" % e.where, fn, "; ".join(bad),
